@@ -3,6 +3,7 @@ package univ
 import (
 	"context"
 	"sort"
+	"strings"
 )
 
 var ctxBG = context.Background()
@@ -44,21 +45,18 @@ func Enumerate(slots []Slot, max int, f func(picks []Pick)) {
 	rec(0)
 }
 
-// Space is a family of universes: a base, a list of slots, and a builder.
+// Space is a family of universes: a base (possibly with a requirement
+// template), a list of slots, and a builder.
 type Space struct {
-	Name  string
+	Name  string // system name
+	Base  string // "empty" or the template name
 	Slots []Slot
-	Root  [2]string // package, version
 	// Build returns the universe for the picks, or ok=false if the picks are
-	// pointless (e.g. a requirement on a version no path from the root reaches).
+	// pointless (a deviation on a version no requirement path from the root reaches).
 	Build func(picks []Pick) (u Universe, ok bool)
-	// Roots lists the versions to resolve from (root first).
-	Roots [][2]string
 }
 
-type dependent struct{ pkg, ver string }
-
-// reachablePkgs computes package-level reachability from the root through requirement picks.
+// reachablePkgs computes package-level reachability from the root through requirement edges.
 func reachablePkgs(root string, edges [][2]string) map[string]bool {
 	r := map[string]bool{root: true}
 	for changed := true; changed; {
@@ -73,6 +71,160 @@ func reachablePkgs(root string, edges [][2]string) map[string]bool {
 	return r
 }
 
+// sysDef describes one system's alphabets.
+type sysDef struct {
+	name     string
+	vers     []Ver    // base versions; index 0 is the root
+	targets  []string // packages a requirement may point at
+	reqs     []string // requirement alphabet
+	decor    []string // single-slot decorations of a requirement
+	apply    func(r *Req, d string)
+	verDecor []string // per-version decorations (not on the root)
+	applyVer func(u *Universe, vi int, d string)
+	pkgDecor []string // per-target-package decorations
+	applyPkg func(u *Universe, pkg string, d string)
+	mgmt     []string // root-managed versions per target (Maven)
+}
+
+// tmplReq is one requirement of a template: dependent version index, requirement.
+type tmplReq struct {
+	dep int
+	req Req
+}
+
+func newSpace(def sysDef, base string, tmpl []tmplReq) *Space {
+	sp := &Space{Name: def.name, Base: base}
+	type reqSlot struct {
+		dep    int
+		target string
+		tmpl   int // index into tmpl or -1
+	}
+	var reqSlots []reqSlot
+	root := def.vers[0].Pkg
+	for di := range def.vers {
+		for _, t := range def.targets {
+			ti := -1
+			for k, tr := range tmpl {
+				if tr.dep == di && tr.req.Pkg == t {
+					ti = k
+				}
+			}
+			opts := len(def.reqs)
+			if ti >= 0 {
+				opts++ // one more alternative: remove the template requirement
+			}
+			reqSlots = append(reqSlots, reqSlot{di, t, ti})
+			sp.Slots = append(sp.Slots, Slot{Options: opts, Requires: -1})
+		}
+	}
+	nReq := len(reqSlots)
+	// decoration slots: available if the requirement slot was picked or the template fills it
+	for i := 0; i < nReq; i++ {
+		req := i
+		if reqSlots[i].tmpl >= 0 {
+			req = -1
+		}
+		sp.Slots = append(sp.Slots, Slot{Options: len(def.decor), Requires: req})
+	}
+	verBase := len(sp.Slots)
+	for range def.vers[1:] {
+		sp.Slots = append(sp.Slots, Slot{Options: len(def.verDecor), Requires: -1})
+	}
+	pkgBase := len(sp.Slots)
+	for range def.targets {
+		sp.Slots = append(sp.Slots, Slot{Options: len(def.pkgDecor), Requires: -1})
+	}
+	mgmtBase := len(sp.Slots)
+	for range def.targets {
+		sp.Slots = append(sp.Slots, Slot{Options: len(def.mgmt), Requires: -1})
+	}
+	sp.Build = func(picks []Pick) (Universe, bool) {
+		u := Universe{Sys: def.name, Vers: make([]Ver, len(def.vers))}
+		copy(u.Vers, def.vers)
+		// requirement per slot: start from the template
+		slotReq := make([]*Req, nReq)
+		for i, rs := range reqSlots {
+			if rs.tmpl >= 0 {
+				r := tmpl[rs.tmpl].req
+				slotReq[i] = &r
+			}
+		}
+		for _, p := range picks {
+			switch {
+			case p.Slot < nReq:
+				rs := reqSlots[p.Slot]
+				if p.Opt == len(def.reqs) {
+					slotReq[p.Slot] = nil // removed
+				} else if slotReq[p.Slot] != nil && slotReq[p.Slot].Ver == def.reqs[p.Opt] {
+					return u, false // same as the template: not a deviation
+				} else {
+					slotReq[p.Slot] = &Req{Pkg: rs.target, Ver: def.reqs[p.Opt]}
+				}
+			case p.Slot < verBase:
+				r := slotReq[p.Slot-nReq]
+				if r == nil {
+					return u, false
+				}
+				def.apply(r, def.decor[p.Opt])
+			}
+		}
+		var edges [][2]string
+		for i, r := range slotReq {
+			if r != nil {
+				d := reqSlots[i].dep
+				u.Vers[d].Reqs = append(u.Vers[d].Reqs, *r)
+				edges = append(edges, [2]string{def.vers[d].Pkg, r.Pkg})
+			}
+		}
+		for _, p := range picks {
+			switch {
+			case p.Slot >= verBase && p.Slot < pkgBase:
+				def.applyVer(&u, 1+p.Slot-verBase, def.verDecor[p.Opt])
+			case p.Slot >= pkgBase && p.Slot < mgmtBase:
+				def.applyPkg(&u, def.targets[p.Slot-pkgBase], def.pkgDecor[p.Opt])
+			case p.Slot >= mgmtBase:
+				u.Vers[0].Reqs = append(u.Vers[0].Reqs, Req{Pkg: def.targets[p.Slot-mgmtBase], Ver: def.mgmt[p.Opt], Origin: "management"})
+			}
+		}
+		reach := reachablePkgs(root, edges)
+		for _, p := range picks {
+			switch {
+			case p.Slot < verBase:
+				s := p.Slot
+				if s >= nReq {
+					s -= nReq
+				}
+				if !reach[def.vers[reqSlots[s].dep].Pkg] {
+					return u, false
+				}
+			case p.Slot < pkgBase:
+				if !reach[def.vers[1+p.Slot-verBase].Pkg] {
+					return u, false
+				}
+			case p.Slot < mgmtBase:
+				if !reach[def.targets[p.Slot-pkgBase]] {
+					return u, false
+				}
+			default:
+				if !reach[def.targets[p.Slot-mgmtBase]] {
+					return u, false
+				}
+			}
+		}
+		return u, true
+	}
+	return sp
+}
+
+func verIndex(vers []Ver, pkg, ver string) int {
+	for i, v := range vers {
+		if v.Pkg == pkg && v.Ver == ver {
+			return i
+		}
+	}
+	panic("no version " + pkg + "@" + ver)
+}
+
 // ---------------- npm ----------------
 
 // NPMReqs is the requirement alphabet; NPMSat the hand satisfaction table over the version alphabet.
@@ -85,113 +237,69 @@ var NPMSat = map[string]map[string]bool{
 	"1.0.0":        {"1.0.0": true},
 	">=1.1.0":      {"1.1.0": true, "2.0.0": true},
 	">=2.0.0-rc.0": {"2.0.0-rc.1": true, "2.0.0": true},
-	"^1.0.0 ":      {},
 }
 
 // NPMOrder is the ascending order of the version alphabet.
 var NPMOrder = map[string]int{"1.0.0": 1, "1.1.0": 2, "2.0.0-rc.1": 3, "2.0.0": 4}
 
-// NPMSpace builds the npm family of DESIGN §6.6(a).
-func NPMSpace() *Space {
-	base := []Ver{
-		{Pkg: "r", Ver: "1.0.0", Tags: "latest"},
-		{Pkg: "a", Ver: "1.0.0"}, {Pkg: "a", Ver: "1.1.0"}, {Pkg: "a", Ver: "2.0.0", Tags: "latest"},
-		{Pkg: "b", Ver: "1.0.0"}, {Pkg: "b", Ver: "2.0.0-rc.1"}, {Pkg: "b", Ver: "2.0.0", Tags: "latest"},
-		{Pkg: "c", Ver: "1.0.0"}, {Pkg: "c", Ver: "2.0.0", Tags: "latest"},
-	}
-	targets := []string{"a", "b", "c"}
-	sp := &Space{Name: "NPM", Root: [2]string{"r", "1.0.0"}}
-	type reqSlot struct {
-		dep    int // index into base
-		target string
-	}
-	var reqSlots []reqSlot
-	for di := range base {
-		for _, t := range targets {
-			reqSlots = append(reqSlots, reqSlot{di, t})
-			sp.Slots = append(sp.Slots, Slot{Options: len(NPMReqs), Requires: -1})
-		}
-	}
-	nReq := len(reqSlots)
-	// decoration per requirement slot: opt, dev, peer, bundle, alias
-	kinds := []string{"opt", "dev", "peer", "bundle", "alias"}
-	for i := 0; i < nReq; i++ {
-		sp.Slots = append(sp.Slots, Slot{Options: len(kinds), Requires: i})
-	}
-	// per version: blocked (not the root)
-	blockBase := len(sp.Slots)
-	for range base[1:] {
-		sp.Slots = append(sp.Slots, Slot{Options: 1, Requires: -1})
-	}
-	// per package: latest tag moved to the lowest version
-	latestBase := len(sp.Slots)
-	for range targets {
-		sp.Slots = append(sp.Slots, Slot{Options: 1, Requires: -1})
-	}
-	sp.Build = func(picks []Pick) (Universe, bool) {
-		u := Universe{Sys: "NPM", Vers: make([]Ver, len(base))}
-		copy(u.Vers, base)
-		reqOf := map[int][2]int{}
-		var edges [][2]string
-		for _, p := range picks {
-			switch {
-			case p.Slot < nReq:
-				rs := reqSlots[p.Slot]
-				u.Vers[rs.dep].Reqs = append(append([]Req(nil), u.Vers[rs.dep].Reqs...), Req{Pkg: rs.target, Ver: NPMReqs[p.Opt]})
-				reqOf[p.Slot] = [2]int{rs.dep, len(u.Vers[rs.dep].Reqs) - 1}
-				edges = append(edges, [2]string{base[rs.dep].Pkg, rs.target})
-			case p.Slot < 2*nReq:
-				ri := reqOf[p.Slot-nReq]
-				r := &u.Vers[ri[0]].Reqs[ri[1]]
-				switch kinds[p.Opt] {
-				case "opt":
-					r.Opt = true
-				case "dev":
-					r.Dev = true
-				case "peer":
-					r.Scope = "peer"
-				case "bundle":
-					r.Scope = "bundle"
-				case "alias":
-					r.Alias = "x"
-				}
-			case p.Slot < latestBase:
-				u.Vers[1+p.Slot-blockBase].Blocked = true
-			default:
-				pkg := targets[p.Slot-latestBase]
-				first := true
-				for i := range u.Vers {
-					if u.Vers[i].Pkg == pkg {
-						if first {
-							u.Vers[i].Tags = "latest"
-							first = false
-						} else {
-							u.Vers[i].Tags = ""
-						}
+func npmDef() sysDef {
+	return sysDef{
+		name: "NPM",
+		vers: []Ver{
+			{Pkg: "r", Ver: "1.0.0", Tags: "latest"},
+			{Pkg: "a", Ver: "1.0.0"}, {Pkg: "a", Ver: "1.1.0"}, {Pkg: "a", Ver: "2.0.0", Tags: "latest"},
+			{Pkg: "b", Ver: "1.0.0"}, {Pkg: "b", Ver: "2.0.0-rc.1"}, {Pkg: "b", Ver: "2.0.0", Tags: "latest"},
+			{Pkg: "c", Ver: "1.0.0"}, {Pkg: "c", Ver: "2.0.0", Tags: "latest"},
+		},
+		targets: []string{"a", "b", "c"},
+		reqs:    NPMReqs,
+		decor:   []string{"opt", "dev", "peer", "bundle", "alias"},
+		apply: func(r *Req, d string) {
+			switch d {
+			case "opt":
+				r.Opt = true
+			case "dev":
+				r.Dev = true
+			case "peer":
+				r.Scope = "peer"
+			case "bundle":
+				r.Scope = "bundle"
+			case "alias":
+				r.Alias = "x"
+			}
+		},
+		verDecor: []string{"blocked"},
+		applyVer: func(u *Universe, vi int, d string) { u.Vers[vi].Blocked = true },
+		pkgDecor: []string{"latest-lowest"},
+		applyPkg: func(u *Universe, pkg string, d string) {
+			first := true
+			for i := range u.Vers {
+				if u.Vers[i].Pkg == pkg {
+					if first {
+						u.Vers[i].Tags = "latest"
+						first = false
+					} else {
+						u.Vers[i].Tags = ""
 					}
 				}
 			}
-		}
-		reach := reachablePkgs("r", edges)
-		for _, p := range picks {
-			switch {
-			case p.Slot < nReq:
-				if !reach[base[reqSlots[p.Slot].dep].Pkg] {
-					return u, false
-				}
-			case p.Slot >= blockBase && p.Slot < latestBase:
-				if !reach[base[1+p.Slot-blockBase].Pkg] {
-					return u, false
-				}
-			case p.Slot >= latestBase:
-				if !reach[targets[p.Slot-latestBase]] {
-					return u, false
-				}
-			}
-		}
-		return u, true
+		},
 	}
-	return sp
+}
+
+// NPMSpaces returns the npm families of DESIGN §6.6(a): the empty base and a
+// diamond-with-conflict template that forces nested installs.
+func NPMSpaces() []*Space {
+	d := npmDef()
+	vi := func(p, v string) int { return verIndex(d.vers, p, v) }
+	diamond := []tmplReq{
+		{vi("r", "1.0.0"), Req{Pkg: "a", Ver: "^1.0.0"}},
+		{vi("r", "1.0.0"), Req{Pkg: "b", Ver: "^1.0.0"}},
+		{vi("a", "1.1.0"), Req{Pkg: "c", Ver: "^1.0.0"}},
+		{vi("b", "1.0.0"), Req{Pkg: "c", Ver: "^2.0.0"}},
+		{vi("c", "2.0.0"), Req{Pkg: "a", Ver: "^2.0.0"}},
+	}
+	return []*Space{newSpace(d, "empty", nil), newSpace(d, "diamond", diamond)}
 }
 
 // ---------------- Maven ----------------
@@ -207,92 +315,55 @@ var MavenHardSat = map[string]map[string]bool{
 }
 
 // MavenDecor lists the single-slot decorations of a requirement.
-var MavenDecor = []string{"scope:test", "scope:provided", "scope:runtime", "optional", "excl:g:c", "excl:g:*", "excl:*:c", "excl:*:*", "classifier:x", "type:war", "type:pom"}
+var MavenDecor = []string{"scope:test", "scope:provided", "scope:runtime", "optional", "excl:g:a", "excl:g:b", "excl:g:c", "excl:g:*", "excl:*:c", "excl:*:*", "classifier:x", "type:war", "type:pom"}
 
-func MavenSpace() *Space {
-	var base []Ver
-	base = append(base, Ver{Pkg: "g:r", Ver: "1"})
-	targets := []string{"g:a", "g:b", "g:c"}
-	for _, t := range targets {
+func mavenDef() sysDef {
+	d := sysDef{name: "Maven", targets: []string{"g:a", "g:b", "g:c"}, reqs: MavenReqs, decor: MavenDecor, mgmt: []string{"1", "2", "3"}}
+	d.vers = append(d.vers, Ver{Pkg: "g:r", Ver: "1"})
+	for _, t := range d.targets {
 		for _, v := range []string{"1", "2", "3"} {
-			base = append(base, Ver{Pkg: t, Ver: v})
+			d.vers = append(d.vers, Ver{Pkg: t, Ver: v})
 		}
 	}
-	sp := &Space{Name: "Maven", Root: [2]string{"g:r", "1"}}
-	type reqSlot struct {
-		dep    int
-		target string
-	}
-	var reqSlots []reqSlot
-	for di := range base {
-		for _, t := range targets {
-			reqSlots = append(reqSlots, reqSlot{di, t})
-			sp.Slots = append(sp.Slots, Slot{Options: len(MavenReqs), Requires: -1})
+	d.apply = func(r *Req, dc string) {
+		switch {
+		case dc == "scope:test":
+			r.Test = true
+		case dc == "optional":
+			r.Opt = true
+		case strings.HasPrefix(dc, "scope:"):
+			r.Scope = dc[6:]
+		case strings.HasPrefix(dc, "excl:"):
+			r.Excl = dc[5:]
+		case dc == "classifier:x":
+			r.Class = "x"
+		case strings.HasPrefix(dc, "type:"):
+			r.AType = dc[5:]
 		}
 	}
-	nReq := len(reqSlots)
-	for i := 0; i < nReq; i++ {
-		sp.Slots = append(sp.Slots, Slot{Options: len(MavenDecor), Requires: i})
+	return d
+}
+
+// MavenSpaces returns the Maven families of DESIGN §6.6(b): the empty base and
+// a chain template on which exclusions, scopes and ranges act transitively.
+func MavenSpaces() []*Space {
+	d := mavenDef()
+	vi := func(p, v string) int { return verIndex(d.vers, p, v) }
+	chain := []tmplReq{
+		{vi("g:r", "1"), Req{Pkg: "g:a", Ver: "1"}},
+		{vi("g:a", "1"), Req{Pkg: "g:b", Ver: "1"}},
+		{vi("g:b", "1"), Req{Pkg: "g:c", Ver: "1"}},
+		{vi("g:a", "2"), Req{Pkg: "g:b", Ver: "1"}},
+		{vi("g:c", "1"), Req{Pkg: "g:a", Ver: "2"}},
 	}
-	mgtBase := len(sp.Slots)
-	for range targets {
-		sp.Slots = append(sp.Slots, Slot{Options: 3, Requires: -1}) // root-managed version 1,2,3
-	}
-	sp.Build = func(picks []Pick) (Universe, bool) {
-		u := Universe{Sys: "Maven", Vers: make([]Ver, len(base))}
-		copy(u.Vers, base)
-		reqOf := map[int][2]int{}
-		var edges [][2]string
-		for _, p := range picks {
-			switch {
-			case p.Slot < nReq:
-				rs := reqSlots[p.Slot]
-				u.Vers[rs.dep].Reqs = append(append([]Req(nil), u.Vers[rs.dep].Reqs...), Req{Pkg: rs.target, Ver: MavenReqs[p.Opt]})
-				reqOf[p.Slot] = [2]int{rs.dep, len(u.Vers[rs.dep].Reqs) - 1}
-				edges = append(edges, [2]string{base[rs.dep].Pkg, rs.target})
-			case p.Slot < mgtBase:
-				ri := reqOf[p.Slot-nReq]
-				r := &u.Vers[ri[0]].Reqs[ri[1]]
-				d := MavenDecor[p.Opt]
-				switch {
-				case d == "scope:test":
-					r.Test = true
-				case d == "optional":
-					r.Opt = true
-				case len(d) > 6 && d[:6] == "scope:":
-					r.Scope = d[6:]
-				case len(d) > 5 && d[:5] == "excl:":
-					r.Excl = d[5:]
-				case d == "classifier:x":
-					r.Class = "x"
-				case len(d) > 5 && d[:5] == "type:":
-					r.AType = d[5:]
-				}
-			default:
-				t := targets[p.Slot-mgtBase]
-				u.Vers[0].Reqs = append(append([]Req(nil), u.Vers[0].Reqs...), Req{Pkg: t, Ver: []string{"1", "2", "3"}[p.Opt], Origin: "management"})
-			}
-		}
-		reach := reachablePkgs("g:r", edges)
-		for _, p := range picks {
-			if p.Slot < nReq && !reach[base[reqSlots[p.Slot].dep].Pkg] {
-				return u, false
-			}
-			if p.Slot >= mgtBase && !reach[targets[p.Slot-mgtBase]] {
-				return u, false
-			}
-		}
-		return u, true
-	}
-	return sp
+	return []*Space{newSpace(d, "empty", nil), newSpace(d, "chain", chain)}
 }
 
 // ---------------- PyPI ----------------
 
 var PyPIReqs = []string{"==1.0", ">=1.0", "<2.0", "!=1.0", "~=1.0", ">=2.0rc1", ""}
 
-// PyPISat: specifier -> satisfying versions among the finals {1.0, 2.0}; the prerelease 3.0rc1 is
-// handled by pip's prerelease rule in the oracle (only when the specifier names a prerelease or no final matches).
+// PyPISat: specifier -> satisfying versions of {1.0, 2.0, 3.0rc1} as intervals; pip's prerelease rule is applied by the oracle.
 var PyPISat = map[string]map[string]bool{
 	"==1.0":    {"1.0": true},
 	">=1.0":    {"1.0": true, "2.0": true, "3.0rc1": true},
@@ -303,7 +374,7 @@ var PyPISat = map[string]map[string]bool{
 	"":         {"1.0": true, "2.0": true, "3.0rc1": true},
 }
 
-// PyPIMarkers: decoration -> (marker text, truth without extras, truth with extra x)
+// PyPIMarkers: marker decorations with their truth without extras and with extra x.
 var PyPIMarkers = []struct {
 	Text         string
 	Plain, WithX bool
@@ -314,66 +385,46 @@ var PyPIMarkers = []struct {
 	{`os_name == "nt" or sys_platform == "linux"`, true, true},
 }
 
-func PyPISpace() *Space {
-	var base []Ver
-	base = append(base, Ver{Pkg: "r", Ver: "1.0"})
-	targets := []string{"a", "b", "c"}
-	for _, t := range targets {
+func pypiDef() sysDef {
+	d := sysDef{name: "PyPI", targets: []string{"a", "b", "c", "r"}, reqs: PyPIReqs}
+	d.vers = append(d.vers, Ver{Pkg: "r", Ver: "1.0"})
+	for _, t := range []string{"a", "b", "c"} {
 		for _, v := range []string{"1.0", "2.0", "3.0rc1"} {
-			base = append(base, Ver{Pkg: t, Ver: v})
+			d.vers = append(d.vers, Ver{Pkg: t, Ver: v})
 		}
 	}
-	allTargets := []string{"a", "b", "c", "r"}
-	sp := &Space{Name: "PyPI", Root: [2]string{"r", "1.0"}}
-	type reqSlot struct {
-		dep    int
-		target string
+	for _, m := range PyPIMarkers {
+		d.decor = append(d.decor, "marker:"+m.Text)
 	}
-	var reqSlots []reqSlot
-	for di := range base {
-		for _, t := range allTargets {
-			if base[di].Pkg == "r" && t == "r" {
-				continue
-			}
-			reqSlots = append(reqSlots, reqSlot{di, t})
-			sp.Slots = append(sp.Slots, Slot{Options: len(PyPIReqs), Requires: -1})
+	d.decor = append(d.decor, "extras:x")
+	d.apply = func(r *Req, dc string) {
+		if strings.HasPrefix(dc, "marker:") {
+			r.Env = dc[7:]
+		} else {
+			r.Extras = "x"
 		}
 	}
-	nReq := len(reqSlots)
-	nDec := len(PyPIMarkers) + 1 // markers + extras request
-	for i := 0; i < nReq; i++ {
-		sp.Slots = append(sp.Slots, Slot{Options: nDec, Requires: i})
+	return d
+}
+
+// PyPISpaces returns the PyPI families of DESIGN §6.6(c): the empty base and a
+// conflict template that forces backtracking.
+func PyPISpaces() []*Space {
+	d := pypiDef()
+	vi := func(p, v string) int { return verIndex(d.vers, p, v) }
+	conflict := []tmplReq{
+		{vi("r", "1.0"), Req{Pkg: "a", Ver: ">=1.0"}},
+		{vi("r", "1.0"), Req{Pkg: "b", Ver: ">=1.0"}},
+		{vi("a", "2.0"), Req{Pkg: "c", Ver: "==1.0"}},
+		{vi("b", "2.0"), Req{Pkg: "c", Ver: "!=1.0"}},
+		{vi("b", "1.0"), Req{Pkg: "c", Ver: ">=1.0"}},
 	}
-	sp.Build = func(picks []Pick) (Universe, bool) {
-		u := Universe{Sys: "PyPI", Vers: make([]Ver, len(base))}
-		copy(u.Vers, base)
-		reqOf := map[int][2]int{}
-		var edges [][2]string
-		for _, p := range picks {
-			if p.Slot < nReq {
-				rs := reqSlots[p.Slot]
-				u.Vers[rs.dep].Reqs = append(append([]Req(nil), u.Vers[rs.dep].Reqs...), Req{Pkg: rs.target, Ver: PyPIReqs[p.Opt]})
-				reqOf[p.Slot] = [2]int{rs.dep, len(u.Vers[rs.dep].Reqs) - 1}
-				edges = append(edges, [2]string{base[rs.dep].Pkg, rs.target})
-				continue
-			}
-			ri := reqOf[p.Slot-nReq]
-				r := &u.Vers[ri[0]].Reqs[ri[1]]
-			if p.Opt < len(PyPIMarkers) {
-				r.Env = PyPIMarkers[p.Opt].Text
-			} else {
-				r.Extras = "x"
-			}
-		}
-		reach := reachablePkgs("r", edges)
-		for _, p := range picks {
-			if p.Slot < nReq && !reach[base[reqSlots[p.Slot].dep].Pkg] {
-				return u, false
-			}
-		}
-		return u, true
-	}
-	return sp
+	return []*Space{newSpace(d, "empty", nil), newSpace(d, "conflict", conflict)}
+}
+
+// AllSpaces lists every family.
+func AllSpaces() []*Space {
+	return append(append(NPMSpaces(), MavenSpaces()...), PyPISpaces()...)
 }
 
 // SortedCopy returns the strings sorted.
